@@ -26,7 +26,7 @@ def run(ctx, idx):
     # ---- a
     d, r = rd
     n = iorules.param_domains(ctx, idx, "C18.a", d)
-    ctx.floor("C18.a", "defaults / comparisons of cleaned parameters", n, 2)
+    ctx.floor("C18.a", "defaults / comparisons of cleaned parameters", n, 1)
     iorules.constructor_dtype(ctx, idx, "C18.a", d, r)
     for kind, line, msg, fk, node in r.findings:
         if kind == "dtype-arg":
@@ -41,8 +41,25 @@ def run(ctx, idx):
             ctx.violate("C18.a", con, d.module.rel, fi.node.lineno, "%s is never raised: the documented %s check is gone" % (err, "/".join(names)))
             continue
         tests = [t for t in cfg.find("test") if any(cfg.dominates(t, x) for x in rz)]
-        keyed = [t for t in tests if any(isinstance(c, ast.Constant) and c.value in names for c in ast.walk(t.ast))]
-        raw = [t for t in keyed if "get_argument_value" in t.text()]
+
+        def mentions(t):
+            e = K.expand(fi, t.ast)
+            for c in ast.walk(e):
+                if isinstance(c, ast.Constant) and c.value in names:
+                    return True
+                if isinstance(c, (ast.Name, ast.Attribute)):
+                    try:
+                        v = idx.const(fi.module, c, fi)
+                    except KeyError:
+                        continue
+                    if isinstance(v, (tuple, list, set, frozenset)) and any(x in names for x in v):
+                        return True
+                    if v in names:
+                        return True
+            return False
+
+        keyed = [t for t in tests if mentions(t)]
+        raw = [t for t in keyed if "get_argument_value" in K.src(K.expand(fi, t.ast))]
         if not keyed:
             ctx.violate("C18.a", con, d.module.rel, rz[0].line, "%s is not guarded by a test on the %s data type" % (err, "/".join(names)))
         elif not raw:
